@@ -268,7 +268,7 @@ def main(tier: str, seed: int) -> int:
 
     for facet in ("svc", "app", "fs"):
         g = tour.graph(facet)
-        eps, st = tour.tour(g, random.Random(seed), episode_len=300)
+        eps, st = tour.tour(g, random.Random(seed), episode_len=300, level="timers" if tier == "quick" else "exact")
         chk.add_mc(f"Lifecycle({facet}, PowDur=2, FixDur=2, RestDur=2)", g["tlc"])
         chk.cov[f"tour_{facet}"] = st
         if st["covered"] != st["wanted"]:
